@@ -207,7 +207,8 @@ def _peek_and_maybe_raise(point, node, others):
     import core
     for x in [node] + [o for o in others if o is not None and hasattr(o, "depth")]:
         for f in (lambda: x.depth, lambda: x.max_depth, lambda: x.root, lambda: list(x.ancestors), lambda: x.siblings,
-                  lambda: x.diameter, lambda: list(x.descendants), lambda: x.path_name, lambda: x.node_path):
+                  lambda: x.diameter, lambda: list(x.descendants), lambda: x.path_name, lambda: x.node_path,
+                  lambda: x.children, lambda: x.is_leaf, lambda: list(x.leaves)):
             try:
                 f()
             except Exception:  # noqa: BLE001 - BaseNode has no path_name, ...
@@ -249,6 +250,31 @@ def hooked_classes():
 
         _HCLS["n"], _HCLS["b"] = HNode, HBase
     return _HCLS["n"], _HCLS["b"]
+
+
+_HBIN = {}
+
+
+def hooked_bin():
+    """a BinaryNode subclass whose four documented hooks, when armed, read derived properties and then raise"""
+    if not _HBIN:
+        from bigtree import BinaryNode
+
+        class HBin(BinaryNode):
+            def _BinaryNode__pre_assign_parent(self, new_parent):
+                _peek_and_maybe_raise("pre", self, [new_parent])
+
+            def _BinaryNode__post_assign_parent(self, new_parent):
+                _peek_and_maybe_raise("post", self, [new_parent])
+
+            def _BinaryNode__pre_assign_children(self, new_children):
+                _peek_and_maybe_raise("pre", self, [c for c in new_children if c is not None])
+
+            def _BinaryNode__post_assign_children(self, new_children):
+                _peek_and_maybe_raise("post", self, [c for c in new_children if c is not None])
+
+        _HBIN["c"] = HBin
+    return _HBIN["c"]
 
 
 def apply_real(objs, e):
@@ -421,7 +447,7 @@ def bapply_abstract(nodes, e):
         n.parent.slots[n.parent.slots.index(n)] = None
         q.slots[e[3]] = n
         n.parent = q
-    elif e[0] == "bfail":
+    elif e[0] in ("bfail", "bhook"):
         pass
     else:
         raise KeyError(e[0])
@@ -459,6 +485,9 @@ def random_bstruct_edits(rng, spec, count):
             if cands:
                 q, k = rng.choice(cands)
                 e = ["bmove", n.idx, q.idx, k]
+                if rng.random() < 0.35:
+                    # the same VALID move, but a user hook reads derived properties and raises: rolled back, nothing changes
+                    e = ["bhook", n.idx, q.idx, k, rng.choice(["pre", "post", "post"])]
         if e is not None:
             bapply_abstract(nodes, e)
             edits.append(e)
@@ -489,5 +518,24 @@ def bapply_real(objs, e):
             objs[e[1]].parent = objs[e[2]]
         except Exception:  # noqa: BLE001
             pass
+    elif e[0] == "bhook":
+        n, q = objs[e[1]], objs[e[2]]
+        mode = (e[1] * 5 + e[2] * 3 + e[3]) % 3
+        if n.parent is q:
+            mode = 0
+        ARM["point"], ARM["op"] = e[4], e
+        try:
+            if mode == 0:
+                n.parent = q                       # (first free slot: refused by the hook anyway)
+            elif mode == 2:
+                q.children = [n, q.right] if e[3] == 0 else [q.left, n]
+            elif e[3] == 0:
+                q.left = n
+            else:
+                q.right = n
+        except Exception:  # noqa: BLE001 - the roll-back is the point
+            pass
+        finally:
+            ARM["point"] = ARM["op"] = None
     else:
         raise KeyError(e[0])
